@@ -357,6 +357,20 @@ theorem unbounded_original (hW : WF lm) (hs : standardize lm = .ok s) (hT : Cano
     simp only [hflip, hmax, decide_true, if_true] at hlt ⊢
     linarith
 
+/-- **a canonical feasible tableau of the standard form exists only for a FEASIBLE model**: its basic solution maps back
+to a feasible point of `lm`.  (So `into_tableau` can hand a tableau to the loop only when `lm` is feasible; the verdict
+`Infeasible` can only come from the start.) -/
+theorem canonicalFor_feasible (hW : WF lm) (hs : standardize lm = .ok s) (hT : CanonicalFor T (stdK s)) :
+    LinFeasible lm (preimage lm (basicSolution T)) := by
+  obtain ⟨m, hC⟩ := hT.canon
+  have hS := BasicSol.basicSolution_sol hC
+  have hn := BasicSol.basicSolution_nonneg hC hT.feasible
+  have hl : (basicSolution T).length = s.vars.length := by
+    rw [BasicSol.basicSolution_length, hC.rect.costs]; rfl
+  have hF : StdFeasible s (basicSolution T) :=
+    (stdFeasible_iff s _).mpr ⟨hl, nonneg_of_nth hn, (hT.sol _).mp hS⟩
+  exact (Props.C13.bwd lm hW hs _ hF).1
+
 /-- **phase 1 below zero ⇒ the ORIGINAL model is infeasible** (exact comparisons): C13 `fwd` + `std_shape` composed
 with C14 `phase1_feasible_value_bound` at `tol = 0`.  (`into_tableau_two_phase` reports `Infesible` when the phase-1
 optimum is not within the tolerance of `0`; at exact arithmetic a phase-1 optimum `< 0` — the artificial variables cannot
